@@ -497,8 +497,10 @@ def _hx(s):
     return bytes.fromhex(s)
 
 
-def selftest(lib):
-    """raises ValueError with the name of the failing anchor; returns the list of anchors passed"""
+def selftest(lib, levels=(128, 192, 256)):
+    """raises ValueError with the name of the failing anchor; returns the list of anchors passed.
+    The appendix vectors (l = 128) are always checked; curve tables and the internal-consistency
+    checks only for the listed levels."""
     passed = []
 
     def need(cond, what):
@@ -514,7 +516,7 @@ def selftest(lib):
          and oid_der_valid(oid_to_der("1.2.4294967295")) and not oid_der_valid(oid_to_der("1.2.4294967296"))
          and not oid_der_valid(_hx("0603802A01")) and not oid_der_valid(_hx("0681012A")), "oid validator")
     # curve tables
-    for l in (128, 192, 256):
+    for l in levels:
         P = load_params(lib, l)
         C = P.curve
         need(P.p == (1 << 2 * l) - STD_C[l] and P.a == P.p - 3 and P.p % 4 == 3, "table l=%d: p, a" % l)
@@ -602,7 +604,9 @@ def selftest(lib):
     need(M.rand_nz(Tape(le(q, 32) * 64 + le(q - 1, 32))) == q - 1, "rand_nz: 64 bad + good -> good")
     need(M.rand_nz(Tape(le(q, 32) * 65 + le(q - 1, 32))) is None, "rand_nz: 65 bad -> failure")
     # other levels: internal consistency only (no appendix vectors for l = 192, 256 in the repository)
-    for l in (192, 256):
+    for l in levels:
+        if l == 128:
+            continue
         M = Bign(lib, l)
         d = le(M.q - 2, M.no)
         Q = M.pubkey_calc(d)[1]
